@@ -587,7 +587,7 @@ def generate(seed, h, tier):
     if h % P_SLICE_EVERY == P_SLICE_EVERY - 1:
         from .. import pcheck
 
-        s = pcheck.generate(seed, ID, h, tier, jobs=(2, 3), vertex_p=0.3, fault_p=0.0, buggify_p=0.2)
+        s = pcheck.generate(seed, ID, h, tier, jobs=(2, 3), vertex_p=0.3, fault_p=0.35, buggify_p=0.2)
         s["p_slice"] = True
         return s
     rng = core.Rng(seed, ID, h)
